@@ -69,27 +69,6 @@ structure Event where
   keys : List (String × Option Val)
   deriving Repr, DecidableEq, Inhabited
 
-/-- Interpreter state. `ctx` + `stack` model the `Context` *object* (the stack
-    lives on it); `trace`, `sleeps`, `nextExc`, `rnd` are global to the run. -/
-structure St where
-  ctx : Ctx := []
-  stack : List String := []        -- pipeline names, innermost first
-  trace : List Event := []
-  sleeps : List Val := []
-  nextExc : Nat := 0
-  rnd : List Num := []             -- scripted `random.uniform` fractions
-  ood : Bool := false              -- the run left the modelled domain (driver rejects)
-  deriving Repr, Inhabited
-
-abbrev Body := St → St × Res
-
-/-- Raise a fresh exception object. -/
-def raiseNew (s : St) (name msg : String) : St × Res :=
-  ({ s with nextExc := s.nextExc + 1, ood := s.ood || name == "OutOfDomain" },
-   .err ⟨s.nextExc, name, msg⟩ false)
-
-def raiseExc (s : St) (e : Exc) : St × Res := raiseNew s e.name e.msg
-
 /-- The counters the `Step` object holds (`for_counter`, `while_decorator.while_counter`,
     `retry_decorator.retry_counter`); `some` iff the step has that decorator (and, for the
     loops, is inside an iteration). -/
@@ -123,12 +102,15 @@ structure RetryCfg where
     neither a string nor null - the sequence item itself (`simple`, e.g. `- 42`, `- [a, b]`) or the
     value of the `name` key (`name: 5`); `Step.__init__` takes it as it is (duck typing). `lc` is the
     position ruamel's round-trip parser recorded for the step mapping (`step.lc.line`, `step.lc.col`:
-    0-based; the first key of a block mapping, the opening brace of a flow mapping). -/
+    0-based; the first key of a block mapping, the opening brace of a flow mapping). `inBad`: what
+    stands under `in` when that is neither a mapping nor null nor empty (`in: ab`, `in: 5`);
+    `set_step_input_context` fails on it (`inArgs` is `none` then). -/
 structure StepDef where
   name : Option String              -- `name` key (module to load)
   rawName : Option Val := none
   simple : Bool := false
   inArgs : Option (List (String × Val)) := none
+  inBad : Option Val := none        -- `in:` given as something that is no mapping (a non-empty string, a number)
   run : Val := .bool true
   skip : Val := .bool false
   swallow : Val := .bool false
@@ -148,6 +130,41 @@ def StepDef.line (d : StepDef) : Option Nat := d.lc.map (·.1 + 1)
 
 /-- `Step.line_col`: `step.lc.col + 1`. -/
 def StepDef.col (d : StepDef) : Option Nat := d.lc.map (·.2 + 1)
+
+/-- Ghost record of one event "an error escaped a step's body (after its retries) and the step is the
+    one to record it": which step, which exception object, in which context. Written by
+    `runConditional`, read by nothing in the model (C07 relates `runErrors` to this log). -/
+structure Escape where
+  step : StepDef
+  exc : ExcV
+  ctx : Ctx
+  deriving Repr, Inhabited
+
+/-- Interpreter state. `ctx` + `stack` model the `Context` *object* (the stack
+    lives on it); `trace`, `sleeps`, `nextExc`, `rnd` are global to the run. -/
+structure St where
+  ctx : Ctx := []
+  stack : List String := []        -- pipeline names, innermost first
+  trace : List Event := []
+  sleeps : List Val := []
+  nextExc : Nat := 0
+  rnd : List Num := []             -- scripted `random.uniform` fractions
+  ood : Bool := false              -- the run left the modelled domain (driver rejects)
+  escapes : List Escape := []      -- ghost log (see `Escape`); never read by the interpreter
+  defaultBackoff : String := "fixed"   -- `config.default_backoff` (global configuration): read when a retry loop STARTS
+  deriving Repr, Inhabited
+
+abbrev Body := St → St × Res
+
+/-- Raise a fresh exception object. The two names the model itself invents - `OutOfDomain` (a value outside
+    the modelled shapes) and `OutOfFuel` (the formatter's own recursion budget `FMT_FUEL` ran out: a
+    context value nested deeper than the model follows) - mark the run as having left the modelled
+    domain: the driver rejects it, whatever became of that error afterwards (swallowed, recorded, cleared). -/
+def raiseNew (s : St) (name msg : String) : St × Res :=
+  ({ s with nextExc := s.nextExc + 1, ood := s.ood || name == "OutOfDomain" || name == "OutOfFuel" },
+   .err ⟨s.nextExc, name, msg⟩ false)
+
+def raiseExc (s : St) (e : Exc) : St × Res := raiseNew s e.name e.msg
 
 /-- What stands under a step-group's name in the pipeline yaml. Only a sequence (or null) is a well
     formed group; the other shapes are yaml slips that `StepsRunner.get_pipeline_steps` /
